@@ -498,7 +498,33 @@ def r18_question_mark(text):
             return text, cnt
 
 
+def r20_mut_self(text):
+    """R20: `fn f(mut self, ..) { BODY }` -> `fn f(self, ..) { let mut self__ = self; BODY[self := self__] }`
+    (Verus does not support `mut self` parameters; this is an alpha-renaming of the by-value receiver)."""
+    try:
+        fp = L.FnParts(text)
+    except L.LexError:
+        return text, 0
+    m = fp.m
+    params = m[fp.params_open:fp.params_close + 1]
+    k = re.match(r"\(\s*mut\s+self\b", params)
+    if not k or m[fp.body_open] != "{":
+        return text, 0
+    body = text[fp.body_open + 1:fp.body_close]
+    bm = m[fp.body_open + 1:fp.body_close]
+    out = []
+    last = 0
+    for w in re.finditer(r"(?<![A-Za-z0-9_])self(?![A-Za-z0-9_])", bm):
+        out.append(body[last:w.start()])
+        out.append("self__")
+        last = w.end()
+    out.append(body[last:])
+    head = text[:fp.params_open] + re.sub(r"\(\s*mut\s+self\b", "(self", text[fp.params_open:fp.params_close + 1], count=1) + text[fp.params_close + 1:fp.body_open + 1]
+    return head + "\n        let mut self__ = self;" + "".join(out) + text[fp.body_close:], 1
+
+
 RULES = {
+    "R20": r20_mut_self,
     "R18": r18_question_mark,
     "R17": r17_continue_elimination,
     "R16": r16_split_iter_map_collect,
